@@ -92,44 +92,9 @@ def run(ctx, report: Report) -> None:
 
     # ---- R3 ------------------------------------------------------------------------------------------------
     r3 = report.rule('C06-R3', 'custom-selector recursion is cut', floor=2)
-    pmod, cfn = src.func('css_parser.CSSParser.parse_pseudo_class_custom')
-    rec = [c for c in ast.walk(cfn) if isinstance(c, ast.Call) and src.resolve_class_ref(pmod, c.func) == 'css_parser.CSSParser']
-    if len(rec) != 1:
-        raise AnalysisError('parse_pseudo_class_custom: recursive CSSParser(...) construction not found')
-    rec = rec[0]
-    stmt = rec
-    while not isinstance(pmod.parents.get(stmt), (ast.If, ast.FunctionDef)):
-        stmt = pmod.parents[stmt]
-    block = pmod.parents[stmt].body
-    idx = block.index(stmt)
-    before = [unparse(s) for s in block[:idx]]
-    after = [unparse(s) for s in block[idx + 1:]]
-    key = None
-    for s in block[:idx]:
-        if isinstance(s, ast.Delete) and isinstance(s.targets[0], ast.Subscript) and unparse(s.targets[0].value) == 'self.custom':
-            key = unparse(s.targets[0].slice)
-    # the nested parser must see the reduced table: it receives self.custom itself (C07-R4) or a table without the name
-    cust = [kw.value for kw in rec.keywords if kw.arg == 'custom'] or rec.args[1:2]
-    passes_reduced = bool(cust) and (unparse(cust[0]) == 'self.custom' and key is not None or 'if' in unparse(cust[0]) and '!=' in unparse(cust[0]))
-    restored = key is not None and any(a.startswith(f'self.custom[{key}] =') for a in after) or (key is None and passes_reduced)
-    r3.instance({'before_recursion': before, 'after_recursion': after, 'name_removed_for_nested_parse': passes_reduced,
-                 'restored_afterwards': restored}, key='cut')
-    r3.obligation(passes_reduced and restored)
-    if not passes_reduced:
-        r3.violation('parse_pseudo_class_custom recursion not cut', pmod.where(rec),
-                     'the definition of a custom selector is compiled by a nested parser that can still see the name being '
-                     'defined: cyclic definitions (":--a" -> ":--b" -> ":--a") recurse until RecursionError instead of raising '
-                     'SelectorSyntaxError')
-    elif not restored:
-        r3.violation('parse_pseudo_class_custom name not restored', pmod.where(rec),
-                     'the custom selector name removed for the nested parse is not put back (compiled) afterwards: a second '
-                     'reference to the same name in one pattern raises "Undefined custom selector"')
-    guard = [n for n in walk_no_nested(cfn) if isinstance(n, ast.If) and 'is None' in unparse(n.test) and any(
-        isinstance(x, ast.Raise) for x in ast.walk(n))]
-    r3.instance({'undefined_name_guard': bool(guard)}, key='guard')
-    if not guard:
-        r3.violation('parse_pseudo_class_custom undefined guard', pmod.where(cfn),
-                     'a reference to a name that is missing from the table no longer raises SelectorSyntaxError')
+    # cyclic, self-referential, undefined and repeatedly referenced custom selectors: compiled by interpretation
+    from .e2etab import custom_cycle_table
+    custom_cycle_table(ctx, r3)
 
     # the text handed to a (nested) parser is text: a value read from the shared custom table may already be compiled
     tf = ctx.types
@@ -155,8 +120,8 @@ def run(ctx, report: Report) -> None:
                              f'CSSParser({unparse(arg)[:40]}, ...) in {mod.enclosing_function(c)}: the pattern argument has static type '
                              f'{kinds} at this point - not narrowed to str. An entry of the custom table that was already compiled '
                              f'(a SelectorList) would be parsed as text and raise AttributeError/TypeError out of compile()')
-    if n_ctor < 3:
-        raise AnalysisError('fewer than three CSSParser(...) constructions found')
+    if n_ctor < 1:
+        raise AnalysisError('no CSSParser(...) construction found')
 
     # ---- R4 ------------------------------------------------------------------------------------------------
     r4 = report.rule('C06-R4', 'arguments of the memoised compiler are hashable', floor=4)
@@ -190,6 +155,10 @@ def run(ctx, report: Report) -> None:
     # custom definition) may be exponentially ambiguous - the same analysis as C07-R1, restricted to css_parser and util
     r7 = report.rule('C06-R7', 'compile() comes back: no parser-side regex has exponential ambiguity', floor=23)
     from .c07 import eda_scan
-    eda_scan(ctx, r7, [r for r in inv.regexes if r.module in ('css_parser', 'util')])
+    for r_ in [r for r in inv.regexes if r.module in ('css_parser', 'util')]:
+        try:
+            eda_scan(ctx, r7, [r_])
+        except AnalysisError as e:
+            r7.note(f'{r_.name}: not analysed here ({e}); C07-R1 is the deciding rule for this regex')
 
 
